@@ -55,6 +55,12 @@ type Sim struct {
 	// runnable before counting an idle period.  0 means one hour.
 	IdleQuantum time.Duration
 
+	// DeferBackground lets the scheduler, when only goroutines that are not
+	// named tasks ("anon": goroutines the code under test spawned itself)
+	// are runnable and some named task is asleep on a timer, leave them
+	// parked and let simulated time pass instead (a tape decision).
+	DeferBackground bool
+
 	// Dial, if set, serves verifsim.DialTimeout.
 	Dial func(network, addr string, timeout time.Duration) (net.Conn, error)
 
@@ -378,6 +384,41 @@ func (s *Sim) Uninstall() {
 	verifsim.Install(nil)
 }
 
+// Unhooked runs f on the calling goroutine with the verifsim hooks removed, so
+// that instrumented code called by f runs straight through.  It may only be
+// called from the scheduler goroutine (Invariant, or between Run calls), when
+// every other goroutine is parked.
+func (s *Sim) Unhooked(f func()) {
+	verifsim.Install(nil)
+	defer s.Install()
+
+	f()
+}
+
+// ParkedSites returns the sites at which goroutines are currently parked.
+func (s *Sim) ParkedSites() (sites []string) {
+	s.mu.Lock()
+	defer s.mu.Unlock()
+
+	for _, w := range s.parked {
+		sites = append(sites, w.site)
+	}
+
+	return sites
+}
+
+// Parked returns (task name, site) of every parked goroutine.
+func (s *Sim) Parked() (out [][2]string) {
+	s.mu.Lock()
+	defer s.mu.Unlock()
+
+	for _, w := range s.parked {
+		out = append(out, [2]string{w.name, w.site})
+	}
+
+	return out
+}
+
 // Stop makes every future yield a no-op and releases all parked goroutines.
 func (s *Sim) Stop() {
 	s.mu.Lock()
@@ -433,6 +474,29 @@ func (s *Sim) enabledLocked() (ws []*waiter, evs []*event) {
 	return ws, evs
 }
 
+// onlyBackground reports whether every runnable waiter is an anonymous
+// goroutine while some named task is neither parked nor finished (so it will
+// wake up by itself).
+func (s *Sim) onlyBackground(ws []*waiter, live int) (ok bool) {
+	for _, w := range ws {
+		if w.name != "anon" {
+			return false
+		}
+	}
+
+	s.mu.Lock()
+	defer s.mu.Unlock()
+
+	named := 0
+	for _, w := range s.parked {
+		if w.name != "anon" {
+			named++
+		}
+	}
+
+	return live-named > 0
+}
+
 // Run is the scheduler loop.  It must be called on the bubble's root
 // goroutine.  It returns when every named task has finished and nothing is
 // parked or posted, when nothing can make progress (Stuck), when the step
@@ -474,6 +538,27 @@ func (s *Sim) Run() {
 		s.mu.Unlock()
 
 		k := len(ws) + len(evs)
+		if s.DeferBackground && k > 0 && len(evs) == 0 && s.onlyBackground(ws, live) &&
+			s.T.Chance(1, 2, "defer-background") {
+			q := s.IdleQuantum
+			if q == 0 {
+				q = time.Hour
+			}
+			tm := time.NewTimer(q)
+			select {
+			case <-s.wake:
+			case <-tm.C:
+			}
+			tm.Stop()
+
+			s.mu.Lock()
+			s.epoch++
+			s.nontriv = true
+			s.mu.Unlock()
+
+			continue
+		}
+
 		if k == 0 {
 			if live == 0 && nParked == 0 {
 				return
